@@ -6,7 +6,7 @@ CFG = dict(
                "spacing, re-arming before expiry, expiries in any order the clock allows): at most one callback per arming (no hypothesis); "
                "every callback is produced by an expiry at or after the deadline of the arming it belongs to (no hypothesis); with strictly "
                "increasing armed rounds every callback belongs to the LATEST arming made before it (re-arming supersedes) and a round is called "
-               "back at most once; every callback goes to the handler of the LAST OnTimeout registration (re-registration replaces); deadline = slot start + role base (slot/3 or slot/3*2) + cumulative per-round allowance, strictly monotone "
+               "back at most once; an arming neither superseded nor reaped is called back by its first expiry at/after the deadline (at once if the deadline had passed at arming); every callback goes to the handler of the LAST OnTimeout registration (re-registration replaces); deadline = slot start + role base (slot/3 or slot/3*2) + cumulative per-round allowance, strictly monotone "
                "in the round, for the four slot-timed roles; Controller.OnTimeout model: a timeout for an unknown height, a lower round or a "
                "decided instance (also: undecodable data, stopped instance, duplicate delivery) changes nothing, broadcasts nothing, re-arms "
                "nothing; over ALL controller histories (start / decided for past, current, future heights / timeouts, any container capacity) a timeout "
@@ -24,9 +24,13 @@ CFG = dict(
               "of the real controller.Controller, with a model-independent property oracle",
     lean=["Ssv.Props.C17"],
     engines=[dict(harness="timer", driver="m_timer", case_delim="reset",
-                  n_quick=160, n_thorough=1500, thorough_seeds=3, n_search=160, search_seeds=3)],
+                  n_quick=160, n_thorough=1500, thorough_seeds=3, n_search=160, search_seeds=3),
+             # validator-level glue (implementation-side oracle only, no model driver): real timeout EVENT messages for evicted / never-run /
+             # decided heights and lower rounds through the real Validator.ProcessMessage -> handleEventMessage; see notes/C17_glue.md
+             dict(harness="runner", driver=None, args=["-mode", "c17"], case_delim="reset", n_quick=80, n_thorough=2000, thorough_seeds=2,
+                  n_search=300, search_seeds=2)],
     rule="per seed: n timer cases (1-5 armings, rounds strictly increasing with jumps, re-arm before expiry / after expiry / random gap, deadlines already "
-         "passed at arming, parent-context cancel with later armings, 18% at the points the quantifier excludes: same round twice, round re-armed after being "
+         "passed at arming (25% late duty starts: 0..several rounds overdue, then left alone >= 400 ms for the liveness oracle), parent-context cancel with later armings, 18% at the points the quantifier excludes: same round twice, round re-armed after being "
          "superseded, new height on the shared timer), each executed at least twice on the real RoundTimer and re-run in isolation if executions differ or "
          "measured scheduling latency > 30 ms (scripts keep 60 ms between ops and expiry instants); 6n duration-arithmetic ops of the real RoundTimeout, 3n deadline ops on the REAL beacon.Network (4 spec networks x local-testnet flag, "
          "handed on through GetNetwork as the operator does; slot start checked against the configured object's own genesis), handler "
